@@ -176,6 +176,10 @@ void ClockDevice::doLoop(int opIndex, Verdict& v, Coverage& cov) {
   // rescued by the harness. So a share of the runs (probe=0) never touches the primary here: the control is polled
   // by reading it, "before" is the control's reading, a consumed valid answer is assumed applied, and any
   // divergence shows at the next GET (c14-corrupt).
+  if (sync.rebasePending && now > sync.failT) {
+    if (sync.phase == SyncModel::IDLE && sync.after == SyncModel::FAILURE) sync.dueMax = sync.polled + sync.maxPeriodMs();
+    sync.rebasePending = false;
+  }
   acetime_t pre = probes ? probe(opIndex, v, "before loop()") : control->getNow();
   acetime_t lsPre = primary->getLastSyncTime();
   ref.beginCall(); rtc.beginCall();
@@ -502,7 +506,9 @@ bool ClockDevice::exec(const std::vector<std::string>& toks, int opIndex, Verdic
           (long long)t0, calls, (long long)(t - t0)), opIndex);
     }
     // measured, like every liveness bound here, in polled time (+1 s for a gap that was over-long before the drain began)
-    int64_t bound = sync.maxPeriodMs() + cfg.tmo + 2000 + 40;
+    // (the drain itself calls loop() up to 60 s apart: a machine that notices the time-out, and later the end of its
+    // wait, only at the call AFTER the instant is up to one such step late each time)
+    int64_t bound = sync.maxPeriodMs() + cfg.tmo + 2000 + 40 + 2 * 60000;
     if (!v.violated && sync.polled - polled0 > bound) {
       v.fail("c14-liveness-final", fmt("successful sync only %lld ms of polled time after faults stopped; bound is %lld",
           (long long)(sync.polled - polled0), (long long)bound), opIndex);
